@@ -104,6 +104,18 @@ Fixpoint ppp_opts_loop (fuel : nat) (data : bytes) : result (list (N * bytes)) :
     else Ok []
   end.
 Definition ppp_parse_options (data : bytes) := ppp_opts_loop (S (length data)) data.
+
+(* Is a packet that reached an automaton answered?  Predictable from the packet alone — in the Req-Sent and Opened states
+   the harness installs — for Configure-Request (answered with Ack/Nak/Rej whenever its options parse), Terminate-Request
+   (Terminate-Ack) and unknown codes (Code-Reject).  This makes "delivered to the FSM" vs "dropped" observable. *)
+Definition fsm_predictable (code : N) : bool := (code =? 1) || (code =? 5) || (code =? 0) || (11 <? code).
+Definition fsm_answers (r : route) : bool :=
+  match r with
+  | RLcpFsm c _ d | RIpcpFsm c _ d | RIpv6cpFsm c _ d =>
+    if c =? 1 then is_ok (ppp_parse_options d) else fsm_predictable c
+  | _ => false
+  end.
+Definition is_fsm_proto (p : N) : bool := (p =? 49185) || (p =? 32801) || (p =? 32855).
 Fixpoint ppp_serialize_options (opts : list (N * bytes)) : bytes :=
   match opts with
   | [] => []
@@ -991,8 +1003,11 @@ Definition rmap {A B} (f : A -> B) (r : result A) : result B := x <- r;; Ok (f x
 Definition run (v : variant) (entry : N) (na : list N) (ba : list bytes) : result (list tok) :=
   let b := barg 0 ba in
   if entry =? 1 then (rmap (fun r => let '(c, i, p) := r in [TN c; TN i; TB p]) (ppp_hdr v b)) else
-  if entry =? 2 then (rmap route_toks
-           (handle_frame v (mk_dcfg (negb (arg 1 na =? 0)) (negb (arg 2 na =? 0)) (negb (arg 3 na =? 0))) (arg 0 na) b)) else
+  if entry =? 2 then
+    (r <- handle_frame v (mk_dcfg (negb (arg 1 na =? 0)) (negb (arg 2 na =? 0)) (negb (arg 3 na =? 0))) (arg 0 na) b;;
+     Ok (route_toks r ++
+         (if negb (arg 3 na =? 0) && is_fsm_proto (arg 0 na) && fsm_predictable (nth 0 b 0)
+          then [TN 77; tbool (fsm_answers r)] else []))) else
   if entry =? 3 then (rmap opt_toks (ppp_parse_options b)) else
   if entry =? 4 then (rmap pair_toks (pap_req b)) else
   if entry =? 5 then (rmap (fun m => [TB m]) (pap_msg b)) else
